@@ -14,7 +14,7 @@ RULE = ("seeded scenarios with one observed task (payload from sleeps, postponem
         "distinct tokens. Task.status is sampled before every activation. Non-trivial = the "
         "cancel was delivered inside the payload or prevented its start; distinct = distinct "
         "(observed-task event sequence, awaiter results, fault positions).")
-BUDGET = {"quick": {"cases": 1200, "wall_s": 100, "chunk": 3, "per_group": 60},
+BUDGET = {"quick": {"cases": 1200, "wall_s": 240, "chunk": 3, "per_group": 60},
           "thorough": {"cases": 8000, "wall_s": 1500, "chunk": 5, "per_group": 500}}
 ASSUMPTIONS = ["each faulted run is compared with a fault-free twin run of the same scenario "
                "(bystanders and parent must behave identically)"]
